@@ -107,5 +107,5 @@ pub fn on_fresh_thread<R: Send + 'static>(
     }
 }
 
-pub const RUN_TIMEOUT_S: u64 = 60;
+pub const RUN_TIMEOUT_S: u64 = 25;
 pub const WATCHDOG: &str = "VERIF-WATCHDOG";
